@@ -2,3 +2,4 @@
 //! `--cfg nuts_rs_verif`). Nothing here changes behaviour.
 
 pub use crate::storage::{ChainStorage, StorageConfig, TraceStorage};
+pub use crate::sampler_stats::StatsDims;
